@@ -100,10 +100,14 @@ def version_int(v):
 def project_symbol(qr):
     m = [list(row) for row in qr.matrix]
     w, h = qr.symbol_size()
+    sizes = []
+    for sc, b in ((1, None), (3, 0), (2, 7), (10, 1)):
+        ww, hh = qr.symbol_size(scale=sc, border=b)
+        sizes.append([sc, -1 if b is None else b, ww, hh])
     return {'version': version_int(qr.version), 'error': qr.error if qr.error is not None else '-',
             'mask': qr.mask, 'mode': qr.mode if qr.mode is not None else 'none', 'is_micro': bool(qr.is_micro),
             'designator': qr.designator, 'default_border': qr.default_border_size,
-            'symbol_size': [w, h], 'matrix': m}
+            'symbol_size': [w, h], 'sizes': sizes, 'matrix': m}
 
 
 def outcome_of_exception(e):
